@@ -374,6 +374,19 @@ class A:
         for i in range(self.size):
             self._set(i, v)
 
+    # torch.Tensor look-alikes (the torch shim of C04/C20 reuses this class)
+    def cpu(self):
+        return self
+
+    def numpy(self):
+        return self
+
+    def detach(self):
+        return self
+
+    def clone(self):
+        return self.copy()
+
     def nonzero(self):
         return nonzero(self)
 
